@@ -79,6 +79,13 @@ TimeoutAddOK(t, m) ==        \* m = [from, msg: TMsg, sigok]
     /\ m.msg.view = t.view /\ m.msg.g = t.g
     /\ TimeoutMsgValid(m.msg)
 
+(* a refused vote leaves the certificate untouched; an accepted one joins the group of its (identical) message or opens a new one *)
+TimeoutAdd(t, m) ==
+    IF ~TimeoutAddOK(t, m) THEN t
+    ELSE LET idx == {i \in 1..Len(t.groups) : t.groups[i].msg = m.msg}
+         IN IF idx = {} THEN [t EXCEPT !.groups = Append(@, [msg |-> m.msg, signers |-> {m.from}, len |-> N])]
+            ELSE LET i == CHOOSE i \in idx : TRUE IN [t EXCEPT !.groups[i].signers = @ \cup {m.from}]
+
 (* Block = payload + certificate; pay is the NAME of the payload whose hash the header carries. *)
 BlockValid(b) == b.payhash = b.qc.vote.pay /\ CommitQCValid(b.qc)
 =============================================================================
